@@ -1117,9 +1117,154 @@ fn run(ctx: &RunCtx) {
     let _ = std::fs::create_dir_all(&work);
     run_phase(ctx, "filesystem", n_fs, GenCfg { fs: true, avoid_inplace_bundle: avoid }, Some(work.clone()));
     let _ = std::fs::remove_dir_all(&work);
+    // the input given as the current directory (`.`, `./`, `sub/..`): needs a process of its own,
+    // because the working directory is process-wide
+    ctx.isolate("cwd_input");
+    let n_cwd = ctx.tier.pick(320, 3_200);
+    let base = ctx.verif_dir.join(".work/c11cwd");
+    ctx.search("cwd_input", n_cwd, 300, |tape, st| {
+        let mut t = Tape::new(tape);
+        let case = gen_cwd_case(&mut t);
+        st.class(&format!("input_spelled:{}", case.input));
+        st.class(if case.output.is_some() { "with_output" } else { "in_place" });
+        st.sample(|| case.to_json());
+        match check_cwd(&case, &base) {
+            Ok(nested) => CaseResult::Pass { nontrivial: nested.then(|| hash_str(&case.to_json().to_string())) },
+            Err(m) if m.starts_with("harness:") => CaseResult::Fail(Failure::new(format!("HARNESS PROBLEM (not a darklua defect): {}", m), case.to_json())),
+            Err(m) => CaseResult::Fail(Failure::new(m, case.to_json())),
+        }
+    });
+}
+
+/// a tree processed from inside it: `input` is a spelling of the current directory
+struct CwdCase {
+    files: Vec<(String, String)>,
+    other: Vec<String>,
+    input: String,
+    output: Option<String>,
+}
+
+impl CwdCase {
+    fn to_json(&self) -> Value {
+        json!({"kind": "cwd_input", "files": self.files, "other": self.other, "input": self.input, "output": self.output})
+    }
+    fn from_json(v: &Value) -> Option<CwdCase> {
+        Some(CwdCase {
+            files: serde_json::from_value(v.get("files")?.clone()).ok()?,
+            other: serde_json::from_value(v.get("other")?.clone()).ok()?,
+            input: v.get("input")?.as_str()?.to_string(),
+            output: v.get("output").and_then(|o| o.as_str()).map(|s| s.to_string()),
+        })
+    }
+}
+
+fn gen_cwd_case(t: &mut Tape) -> CwdCase {
+    let layout = fsgen::gen_layout(t, 5, 2);
+    let below = |p: &String| p[layout.root.len() + 1..].to_string();
+    let files: Vec<(String, String)> = layout.lua.iter().enumerate().map(|(i, p)| (below(p), format!("-- file {}\nreturn {}\n", i, i))).collect();
+    let other = layout.other.iter().map(below).collect();
+    let sub = layout.dirs.iter().skip(1).map(below).find(|d| !d.contains('/'));
+    let input = match (t.choose(5), sub) {
+        (1, _) => "./".to_string(),
+        (2, _) => "./.".to_string(),
+        (3, _) => ".//".to_string(),
+        (4, Some(d)) => format!("{}/..", d),
+        _ => ".".to_string(),
+    };
+    let output = match t.choose(3) {
+        0 => None,
+        1 => Some("../out".to_string()),
+        _ => Some("../out dir/nested".to_string()),
+    };
+    CwdCase { files, other, input, output }
+}
+
+/// Ok(true) when the tree has a file below a sub-directory
+fn check_cwd(case: &CwdCase, base: &Path) -> Result<bool, String> {
+    struct Back(PathBuf);
+    impl Drop for Back {
+        fn drop(&mut self) {
+            let _ = std::env::set_current_dir(&self.0);
+        }
+    }
+    let home = std::env::current_dir().map_err(|e| format!("harness: current_dir: {}", e))?;
+    let dir = base.join(format!("p{}", std::process::id()));
+    let _ = std::fs::remove_dir_all(&dir);
+    let root = dir.join("in");
+    let io = |e: std::io::Error| format!("harness: {}", e);
+    for (p, c) in &case.files {
+        let f = root.join(p);
+        std::fs::create_dir_all(f.parent().unwrap()).map_err(io)?;
+        std::fs::write(&f, c).map_err(io)?;
+    }
+    for p in &case.other {
+        let f = root.join(p);
+        std::fs::create_dir_all(f.parent().unwrap()).map_err(io)?;
+        std::fs::write(&f, "not lua").map_err(io)?;
+    }
+    std::fs::create_dir_all(&root).map_err(io)?;
+    let config = dl::parse_config("{ rules: [], generator: \"retain_lines\" }").map_err(|e| format!("harness: {}", e))?;
+    let result = {
+        let _back = Back(home);
+        std::env::set_current_dir(&root).map_err(io)?;
+        catch(|| {
+            let mut options = Options::new(PathBuf::from(&case.input)).with_configuration(config);
+            if let Some(o) = &case.output {
+                options = options.with_output(PathBuf::from(o));
+            }
+            darklua_core::process(&Resources::from_file_system(), options).map(|tree| tree.collect_errors().iter().map(|e| e.to_string()).collect::<Vec<_>>())
+        })
+    };
+    let verdict = (|| {
+        match result {
+            Err(p) => return Err(format!("darklua panicked: {}", p)),
+            Ok(Err(e)) => return Err(format!("processing the current directory (input spelled `{}`) fails although every file is healthy: {}", case.input, e)),
+            Ok(Ok(errs)) if !errs.is_empty() => return Err(format!("processing the current directory (input spelled `{}`) reports errors although every file is healthy: {:?}", case.input, errs)),
+            Ok(Ok(_)) => {}
+        }
+        let out_root = match &case.output {
+            Some(o) => root.join(o),
+            None => root.clone(),
+        };
+        for (p, c) in &case.files {
+            let got = std::fs::read(out_root.join(p)).map_err(|e| format!("no output at the mirrored path `{}` for `{}` (input spelled `{}`): {}", out_root.join(p).display(), p, case.input, e))?;
+            if got != c.as_bytes() {
+                return Err(format!("the output for `{}` is not darklua's output for that file: {:?}", p, String::from_utf8_lossy(&got)));
+            }
+            if std::fs::read(root.join(p)).map_err(io)? != c.as_bytes() {
+                return Err(format!("the input file `{}` was modified", p));
+            }
+        }
+        if case.output.is_some() {
+            // nothing else is written
+            let mut stack = vec![out_root.clone()];
+            let mut count = 0;
+            while let Some(d) = stack.pop() {
+                for e in std::fs::read_dir(&d).map_err(io)? {
+                    let e = e.map_err(io)?;
+                    if e.file_type().map_err(io)?.is_dir() {
+                        stack.push(e.path());
+                    } else {
+                        count += 1;
+                    }
+                }
+            }
+            if count != case.files.len() {
+                return Err(format!("{} files were written for {} Lua files", count, case.files.len()));
+            }
+        }
+        Ok(case.files.iter().any(|(p, _)| p.contains('/')))
+    })();
+    let _ = std::fs::remove_dir_all(&dir);
+    verdict
 }
 
 fn replay(v: &Value) -> Result<(), String> {
+    if v.get("kind").and_then(|k| k.as_str()) == Some("cwd_input") {
+        let case = CwdCase::from_json(v).ok_or("malformed C11 replay file")?;
+        let base = PathBuf::from(std::env::var("VERIF_DIR").unwrap_or_else(|_| "/verif".into())).join(".work/c11cwd-replay");
+        return check_cwd(&case, &base).map(|_| ());
+    }
     let case = Case::from_json(v).ok_or("malformed C11 replay file")?;
     if case.fs {
         let work = PathBuf::from(std::env::var("VERIF_DIR").unwrap_or_else(|_| "/verif".into())).join(".work/c11fs-replay");
